@@ -8,6 +8,8 @@ import (
 
 	"github.com/tsawler/tabula"
 	"github.com/tsawler/tabula/contentstream"
+	"github.com/tsawler/tabula/core"
+	"github.com/tsawler/tabula/font"
 	"github.com/tsawler/tabula/text"
 )
 
@@ -163,4 +165,14 @@ func TestSheetDimensionCheckDoesNotOverflow(t *testing.T) {
 			return ""
 		})
 	}
+}
+
+// TestBfRangeArrayWithStrayBracket: a ']' before the '[' of a bfrange array line.
+func TestBfRangeArrayWithStrayBracket(t *testing.T) {
+	defer func() {
+		if r := recover(); r != nil {
+			t.Fatalf("panic: %v", r)
+		}
+	}()
+	font.ParseToUnicodeCMap(&core.Stream{Dict: core.Dict{}, Data: []byte("1 beginbfrange\n<00> <05> ] [<0041> <0042>]\nendbfrange\n")})
 }
